@@ -1,6 +1,10 @@
+#[cfg(feature = "verif_sim_net")]
+use crate::sim_net::{TcpListener, TcpStream};
+#[cfg(not(feature = "verif_sim_net"))]
+use std::net::{TcpListener, TcpStream};
 use std::{
     io,
-    net::{Ipv4Addr, SocketAddr, TcpListener, TcpStream},
+    net::{Ipv4Addr, SocketAddr},
     time::Instant,
 };
 
